@@ -13,6 +13,8 @@ pub async fn download_object(
     bucket: &str,
     key: &str,
 ) -> crate::result::Result<DownloadedBucketObject> {
+    #[cfg(nexrad_verif)]
+    use crate::verif::reqwest;
     debug!(
         "Downloading object key \"{}\" from bucket \"{}\"",
         key, bucket
